@@ -191,6 +191,7 @@ func runCaseGuarded(w *W, run func(*W, int), idx int) {
 
 func workerMain(p *Prop, tier string, seed int64, phase string, k, n, from, only int, outdir string) {
 	installHooks()
+	calibrateRef()
 	w := newW(p, tier, seed, phase)
 	run, num := p.Run, p.NumCases
 	if phase == "race" {
@@ -860,6 +861,7 @@ func replayMain(path string) int {
 		return 2
 	}
 	installHooks()
+	calibrateRef()
 	w := newW(p, r.Tier, r.Seed, r.Phase)
 	w.Verbose = true
 	run := p.Run
